@@ -223,11 +223,14 @@ class World(WorldBase):
             "p_env": rng.choice([0.0, 0.0, 0.1, 0.25]),
             "p_thread": rng.choice([0.0, 0.0, 0.0, 0.15]),
             "huge": rng.random() < float(os.environ.get("VERIF_C18_HUGE", "0.01")),
-            "mid": rng.random() < 0.05,              # two trajectories of a few hundred particles
+            "mid": rng.random() < float(os.environ.get("VERIF_C18_MID", "0.07")),              # two trajectories of a few hundred particles
             "p_respell": rng.choice([0.0, 0.05, 0.15]),
             "p_result_edit": rng.choice([0.0, 0.1, 0.3]),
             "faults": [],
         }
+        if sw["mid"]:
+            sw["p_echo"] = 0.35                     # the same entry point on the other (larger / smaller) system
+            sw["p_reuse"] = 0.3
         if batch == "fault":
             sw["faults"] = rng.sample(["interrupt", "interrupt_line", "interrupt_line", "alloc_line", "oserror_write", "oserror_open",
                                        "short_write", "short_read", "oserror_read"], rng.randint(1, 4))
